@@ -123,6 +123,17 @@ Definition sub_mul_ext d x y to : M :=
            else sub_mul_int c d x y to
        end.
 
+(* add_mul_assign_r / sub_mul_assign_r with an extended ACCUMULATOR and factors of a non-extended type (native
+   integers: Checked_Number_Transparent_Policy has neither infinities nor NaN): only the accumulator can be special *)
+Definition fused_acc_ext (native : Z -> Z -> Z -> Z -> M) d x y to : M :=
+  if negb to_handle then native d x y to
+  else if isnan to then nan_res to
+  else if isminf to then special d CMinf to
+  else if ispinf to then special d CPinf to
+  else native d x y to.
+Definition add_mul_ext_nat := fused_acc_ext (add_mul_int c).
+Definition sub_mul_ext_nat := fused_acc_ext (sub_mul_int c).
+
 Definition divlike_ext (native : Z -> Z -> Z -> Z -> M) d x y old : M :=
   if negb to_handle then native d x y old
   else if isnan x || isnan y then nan_res old
